@@ -216,6 +216,32 @@ CHECKS["C02"] = dict(engine="GenData", design_ref="§5 C02",
          "negatability is unambiguous. Mutation choices are drawn, not enumerated.",
     note=GEN_NOTE)
 
+CHECKS["C08"] = dict(engine="OpCache", design_ref="§5 C08",
+    technique="TLA+ OpCache.tla (one operation list, three lookup indices, effective-inputs oracle from the OpenAPI Path Item / Parameter rules) + TLC exhaustive "
+              "enumeration of (document, serialisation, layout, access history); each replayed on a freshly loaded real schema; observations judged by OpCacheJudge.tla",
+    text="Model checking of an explicit TLA+ specification of the operation lookup cache and of the effective-inputs oracle. TLC checks cache coherence, single "
+         "ownership, route agreement and the merge law on every reachable state, and enumerates every document within MaxDev feature changes of a rich base document "
+         "(13 features: path/operation-level parameters with equal names, $ref depth, path item behind $ref, body media types, recursive schema, security variants, "
+         "malformed entries) x JSON/YAML (unquoted numeric keys, on/off, dates) x single/multi-file x every access history up to MaxLen over {iterate, path+method, "
+         "operationId, reference} (quick 256 documents / 23 840 cases, thorough 1 618 / 303 120). Each element is concretised into real files, loaded by the real "
+         "loader and replayed; generation schemas, parameter containers, body alternatives, response keys, YAML-sensitive scalars and resolver scope depth are "
+         "compared with the oracle and re-judged in TLC.",
+    note=COMMON_TRUST + "; the concretiser, YAML writer and projection in harness/c08.py are trusted; full-length histories only for the base document (one access "
+         "shorter per deviating feature); lookups of a malformed operation must only fail, only get_all_operations must name the path; OpenAPI 2.0 formData/body "
+         "parameters and 3.1 documents are not in the family")
+CHECKS["C10"] = dict(engine="Links", design_ref="§5 C10",
+    technique="TLA+ Links.tla (status matching; fold-based reference evaluator for OpenAPI runtime expressions and RFC 6901) + TLC enumeration; every element replayed "
+              "into the real parser / evaluator, link construction and response matcher; live stateful runs read back from the scripted server's log; all observations "
+              "judged by LinksJudge.tla",
+    text="TLC checks design invariants (default covers exactly the remaining statuses, embedded results are text, constants denote themselves, nothing is sent for "
+         "unresolvable or malformed input, RFC 6901 laws) and exhaustively enumerates link keys x key sets x all statuses 100-599, plus a bounded expression language: "
+         "every JSON pointer up to PtrLen tokens over 17 token shapes and the one-edit neighbourhood of a base set of bare and embedded expressions over two exchanges "
+         "(quick 5 386 cases, thorough 31 664). Each element is replayed into the real expressions parser / evaluate, link construction and the state machine's "
+         "response matcher. The stateful phase of the real engine is run against the scripted server on five link families and every link-derived request is compared "
+         "with the reference evaluator on the source exchange as the server saw it. Verdicts are recomputed by TLC and cross-checked with the driver.",
+    note=COMMON_TRUST + "; harness/compat.py enables link routing for the live runs; expression judgements are three-valued plus envelopes; '$' in literal text, '}' "
+         "after a '#' part and a single {expr} with a non-string value are not judged; regex extractors only for catalogue patterns; Swagger 2.0 x-links not covered")
+
 REASON_PENDING = "no check registered yet: spec/harness for this property is still being built (DESIGN.md §10 build order); nothing is claimed"
 
 
